@@ -436,15 +436,17 @@ theorem asis_sibling_alias :
     chainOK script tg [1, 3, 4] = false ∧ chainOK script tg [1, 2, 4] = true := by decide
 
 open Rivaas.Compose in
-/-- K02b (open, recorded): `sub.Warmup()` before `Mount` — the as-is model reads the sub-router's
-    tree nodes, which already carry its middleware 2, and prepends it again: `[1, 2, 2, 3]`. The
-    oracle rejects that chain, admits `[1, 2, 3]`, and the classifier `dK02b` fires. -/
+/-- K02b (fixed): `sub.Warmup()` before `Mount` — as shipped `Mount` read the sub-router's tree nodes, which
+    already carry its middleware 2, and prepended it again: `[1, 2, 2, 3]`; the oracle rejects that chain and
+    admits `[1, 2, 3]`, which is what the repaired `Mount` (from the `route.Route` objects) composes. The
+    classifier `dK02b` names the inputs on which the as-shipped code failed. -/
 theorem warmed_mount_doubles_witness :
     let script : List Op := [.newRouter, .use 0 [1], .use 1 [2], .route (.router 1) 1 [3], .warmup 1,
                              .mount 0 1 2 false []]
     let tg : Target := { mounts := [5], route := 3 }
-    compose script none [2, 1] = some [1, 2, 2, 3] ∧
-    chainOK script tg [1, 2, 2, 3] = false ∧ chainOK script tg [1, 2, 3] = true ∧ dK02b script tg = true := by decide
+    Rivaas.ComposeAsIs.composeMountAsIs script none [2, 1] = some [1, 2, 2, 3] ∧
+    chainOK script tg [1, 2, 2, 3] = false ∧ chainOK script tg [1, 2, 3] = true ∧ dK02b script tg = true ∧
+    compose script none [2, 1] = some [1, 2, 3] := by decide
 
 open Rivaas.Compose in
 /-- the same mount without the early warm-up composes in the documented order, with the
@@ -507,25 +509,37 @@ example :
 /-! ### composition order and isolation through `Mount` -/
 
 open Rivaas.Compose in
-/-- **Composition order + isolation, `Mount` included (partial: no sub-router is warmed up before it
-    is mounted).** For every well-formed configuration script (`wfB`) in which only the serving
-    router is warmed up explicitly (`subsColdB` — a sub-router warmed up before `Mount` is the
-    recorded finding K02b) — `Where…` on registered routes (re-registration with the middleware of
-    that moment) included —, and every route reachable on the serving router through any nesting
-    of mounts (`levels script tg` resolves): the handler slice the model composes exists and is
-    admitted by the oracle — the serving router's global middleware, then per mount (outermost
-    first) the parent's middleware again under `InheritMiddleware` (test-pinned), the sub-router's
-    middleware, the `WithMiddleware` extras, then the groups from the outermost to the innermost,
-    then the route's own handlers; everything attached to an enclosing scope before the route (or
-    the nested scope, or the mount) came into being is present, in attach order; nothing from any
-    scope outside occurs. Generalises `compose_admitted_partial`. -/
-theorem compose_admitted_mounts_partial (script : List Op) (hwf : wfB script = true)
-    (hcold : subsColdB script = true) (tg : Target) (ver : Option Nat) (path : Path) (ls : List Level)
+/-- **Composition order + isolation, `Mount` included — full strength.** For every well-formed configuration
+    script (`wfB`) — `Warmup` of any router at any time, also of a sub-router before it is mounted (the code after
+    the K02b fix), `Where…` on registered routes (re-registration with the middleware of that moment) included —,
+    and every route reachable on the serving router through any nesting of mounts (`levels script tg` resolves):
+    the handler slice the model composes exists and is admitted by the oracle — the serving router's global
+    middleware, then per mount (outermost first) the parent's middleware again under `InheritMiddleware`
+    (test-pinned), the sub-router's middleware, the `WithMiddleware` extras, then the groups from the outermost to
+    the innermost, then the route's own handlers; everything attached to an enclosing scope before the route (or
+    the nested scope, or the mount) came into being is present, in attach order; nothing from any scope outside
+    occurs. Generalises `compose_admitted_partial`. -/
+theorem compose_admitted_mounts (script : List Op) (hwf : wfB script = true)
+    (tg : Target) (ver : Option Nat) (path : Path) (ls : List Level)
     (hl : levels script tg = some (ver, path, ls)) :
     ∃ chain, compose script ver path = some chain ∧ chainOK script tg chain = true := by
-  obtain ⟨chain, h1, h2⟩ := compose_admitted_mount script (wfm_of_wfB script hwf)
-    (subsCold_of_subsColdB script hcold) tg ver path ls hl
+  obtain ⟨chain, h1, h2⟩ := compose_admitted_mount script (wfm_of_wfB script hwf) tg ver path ls hl
   exact ⟨chain, h1, by simp [chainOK, hl, h2]⟩
+
+open Rivaas.Compose in
+/-- non-vacuity with early warm-ups: router 2 is warmed up, gets more middleware and a further route, is mounted
+    into router 1, which is warmed up before it is mounted into the serving router — well-formed, not cold, both
+    targets resolve, every middleware exactly once -/
+example :
+    let script : List Op := [.newRouter, .newRouter, .use 0 [1], .use 1 [2], .use 2 [3], .route (.router 2) 1 [5],
+                             .warmup 2, .use 2 [6], .route (.router 2) 2 [7], .mount 1 2 3 false [8], .warmup 1,
+                             .mount 0 1 4 true []]
+    wfB script = true ∧ subsColdB script = false ∧
+    (levels script { mounts := [11, 9], route := 5 }).isSome = true ∧
+    compose script none [4, 3, 1] = some [1, 1, 2, 3, 6, 8, 5] ∧
+    chainOK script { mounts := [11, 9], route := 5 } [1, 1, 2, 3, 6, 8, 5] = true ∧
+    compose script none [4, 3, 2] = some [1, 1, 2, 3, 6, 8, 7] ∧
+    chainOK script { mounts := [11, 9], route := 8 } [1, 1, 2, 3, 6, 8, 7] = true := by decide
 
 open Rivaas.Compose in
 /-- non-vacuity: a route declared in a group of router 2, router 2 mounted into router 1 (with
